@@ -250,12 +250,18 @@ example : ∃ (k : Nat) (s : Int) (q : List Dec) (L : List Int),
   restricted_sound_pooled (cfg .restricted) 200 (Cache.init 3) (DomStore.init 3) 0 none (.inl rfl) ReachSkip.root
     (noClamp .restricted) (by decide) 109 (by decide)
 
-/-- **C08 (ii) fails for the pooled diagram with long arcs**: the relaxed compilation of the same instance merges the
-    lingering child `3` of the root in block 2, so the root — `(state 0, value 0, depth 0)`, empty path — is handed out
-    in the cut-set of the diagram compiled *from* `(0, 0, depth 0)` -/
+/-- **C08 (ii) failed for the pooled diagram with long arcs before the repair of D5** (`compilePOld`): the relaxed
+    compilation of the same instance merges the lingering child `3` of the root in block 2, so the root —
+    `(state 0, value 0, depth 0)`, empty path — was handed out in the cut-set of the diagram compiled *from* `(0, 0, depth 0)` -/
 theorem cutset_contains_root :
-    (compileP (cfg .relaxed) (Cache.init 3) (DomStore.init 3) 0 none).2.1.cutset.map
+    (compilePOld (cfg .relaxed) (Cache.init 3) (DomStore.init 3) 0 none).2.1.cutset.map
       (fun c => (c.state, c.value, c.depth, c.path.length)) = [(1, 1, 1, 1), (2, 2, 1, 1), (0, 0, 0, 0)] := by decide
+
+/-- the repaired code hands out the three children of the root instead of the root -/
+theorem cutset_root_replaced :
+    (compileP (cfg .relaxed) (Cache.init 3) (DomStore.init 3) 0 none).2.1.cutset.map
+      (fun c => (c.state, c.value, c.depth, c.path.length)) =
+      [(1, 1, 1, 1), (2, 2, 1, 1), (1, 1, 1, 1), (2, 2, 1, 1), (3, 100, 1, 1)] := by decide
 
 end WitnessP
 
